@@ -20,6 +20,7 @@ import lib
 
 F7_RESET = 'C01:reset-on-labelled-parent-attributeerror'
 F7_INFO = 'C01:info-on-labelled-parent-attributeerror'
+INT_SUM = 'C01:int-sum-after-reset'
 
 KINDS = ('counter', 'gauge', 'summary', 'histogram', 'info', 'enum')
 METHODS = {'counter': ('inc', 'reset'), 'gauge': ('inc', 'dec', 'set'), 'summary': ('observe',),
@@ -350,12 +351,28 @@ def oracle(spec, ops, real):
                 fails.append(('C01:rejected-call-mutated', 'step %d %r raised %s and changed the exposed samples: %s'
                               % (i, op, out, diff(obs, want)), i + 1))
             else:
-                fails.append(('C01:value-mismatch', 'after step %d %r collect differs from the reference: %s'
+                sig = INT_SUM if int_after_reset(spec, ops[:i + 1]) else 'C01:value-mismatch'
+                fails.append((sig, 'after step %d %r collect differs from the reference (left-to-right floating-point sums): %s'
                               % (i, op, diff(obs, want)), i + 1))
         prev = obs
         if fails:
             break                                   # later steps depend on the diverged state
     return fails
+
+
+def int_after_reset(spec, ops):
+    """a counter history in which an int amount follows a reset()"""
+    if spec['kind'] != 'counter':
+        return False
+    seen_reset = False
+    for op in ops:
+        if op[0] != 'call':
+            continue
+        if op[3] == 'reset':
+            seen_reset = True
+        elif op[3] == 'inc' and seen_reset and op[4][0] in ('i', 'b'):
+            return True
+    return False
 
 
 def diff(obs, want):
@@ -393,6 +410,9 @@ TINY = [5e-324, 1e-300, 2.2250738585072014e-308, 1e-17]
 NEG = [-1.0, -0.5, -1e300, -5e-324, -0.0, -2.0 ** 53]
 SPECIAL = [INF, -INF, float('nan')]
 INTS = [0, 1, 2, 7, 2 ** 53, 2 ** 60, -3, -1, 1000000]
+# ints that are NOT exactly representable as a double: float + int and float(int) round them to the nearest double, which
+# is what the model receives.  Not for Histogram.observe: `amount <= bound` compares an int with a float exactly.
+INTS_INEXACT = [2 ** 53 + 1, 10 ** 17 + 1, -(2 ** 60) + 3, 2 ** 53 + 3, 3 * 2 ** 53 + 1, 10 ** 22 + 7, -(2 ** 53) - 1, 1]
 BOOLS = [True, False]
 
 LEGACY_NAMES = ['l', 'a', 'b', 'method', 'code_2', '_x', 'Le', 'path']
@@ -410,14 +430,14 @@ def tag_amount(x):
     return F(x)
 
 
-def gen_amount(rng, bounds=None, for_dec=False):
+def gen_amount(rng, bounds=None, for_dec=False, inexact=False):
     r = rng.random()
     if bounds and r < 0.3:
         x = rng.choice(bounds)
         if rng.random() < 0.3:
             x = math.nextafter(x, rng.choice([INF, -INF]))
         return F(x)
-    pool = rng.choice([ORDINARY, ORDINARY, ORDINARY, HUGE, TINY, NEG, SPECIAL, INTS, BOOLS])
+    pool = rng.choice([ORDINARY, ORDINARY, ORDINARY, HUGE, TINY, NEG, SPECIAL, INTS, BOOLS] + ([INTS_INEXACT, INTS_INEXACT] if inexact else []))
     x = rng.choice(pool)
     if for_dec and not isinstance(x, float) and x == 0:
         x = 0.0          # `-0` is the int 0 while `-0.0` is a negative zero: an int zero has no float stand-in under `dec`
@@ -515,8 +535,10 @@ def gen_action(rng, spec):
         return 'touch', None
     else:
         act = rng.choice(METHODS[kind])
+        if kind == 'counter' and act == 'reset' and rng.random() < 0.5:
+            act = 'inc'                              # reset about a quarter of the counter calls
     if act in ('inc', 'dec', 'set', 'observe'):
-        return act, gen_amount(rng, spec_bounds(spec), for_dec=(act == 'dec'))
+        return act, gen_amount(rng, spec_bounds(spec), for_dec=(act == 'dec'), inexact=(kind != 'histogram'))
     if act == 'state':
         sts = spec.get('states') or ['x']
         return act, (rng.choice(sts) if rng.random() < 0.85 else rng.choice(['nope', '', 'Starting']))
@@ -564,7 +586,7 @@ def alphabet(kind):
     B = [['s', 'a'], ['s', '2']]            # shares the first label value with A
     def call(args, kws, act, arg): return ['call', args, kws, act, arg]
     if kind == 'counter':
-        acts = [('inc', F(1.5)), ('inc', ['i', 0]), ('inc', F(-1.0)), ('reset', None)]
+        acts = [('inc', ['i', 1]), ('inc', ['i', 2 ** 53 + 1]), ('inc', F(-1.0)), ('reset', None)]
     elif kind == 'gauge':
         acts = [('inc', F(1.5)), ('dec', F(0.25)), ('set', F(-3.0)), ('set', F(float('nan')))]
     elif kind == 'summary':
@@ -613,13 +635,28 @@ def alphabet0(kind):
 
 
 CORPUS = [
-    # F7
+    # F7 (repaired: both raise ValueError now)
     ({'kind': 'counter', 'name': 'm', 'labelnames': ['l'], 'legacy': True}, [['call', None, None, 'reset', None]]),
     ({'kind': 'info', 'name': 'm', 'labelnames': ['l'], 'legacy': True}, [['call', None, None, 'info', []]]),
     # inc(0), inc(-0.0), inc(nan) are accepted; inc(-5e-324) is not
     ({'kind': 'counter', 'name': 'm', 'labelnames': [], 'legacy': True},
      [['call', None, None, 'inc', ['i', 0]], ['call', None, None, 'inc', F(-0.0)], ['call', None, None, 'inc', F(float('nan'))],
       ['call', None, None, 'inc', F(-5e-324)], ['call', None, None, 'reset', None], ['call', None, None, 'inc', F(2.0)]]),
+    # int amounts that are not doubles, also after reset(): the sums are floating-point sums (int-sum-after-reset)
+    ({'kind': 'counter', 'name': 'm', 'labelnames': [], 'legacy': True},
+     [['call', None, None, 'reset', None], ['call', None, None, 'inc', ['i', 2 ** 53 + 1]], ['call', None, None, 'inc', ['i', 1]],
+      ['call', None, None, 'inc', ['i', 1]], ['call', None, None, 'reset', None], ['call', None, None, 'inc', ['i', 10 ** 17 + 1]],
+      ['call', None, None, 'inc', ['i', 3]], ['call', None, None, 'inc', F(0.5)], ['call', None, None, 'inc', ['b', True]]]),
+    ({'kind': 'counter', 'name': 'm', 'labelnames': ['l'], 'legacy': True},
+     [['call', [['s', 'a']], [], 'inc', ['i', 2 ** 53 + 1]], ['call', [['s', 'a']], [], 'inc', ['i', 1]],
+      ['call', [['s', 'a']], [], 'reset', None], ['call', [['s', 'a']], [], 'inc', ['i', 2 ** 53 + 1]],
+      ['call', [['s', 'a']], [], 'inc', ['i', 1]], ['call', [['s', 'a']], [], 'inc', ['i', -(2 ** 60) + 3]]]),
+    ({'kind': 'gauge', 'name': 'm', 'labelnames': [], 'legacy': True},
+     [['call', None, None, 'set', ['i', 10 ** 17 + 1]], ['call', None, None, 'inc', ['i', 2 ** 53 + 1]],
+      ['call', None, None, 'dec', ['i', -(2 ** 60) + 3]], ['call', None, None, 'dec', ['i', 2 ** 53 + 1]]]),
+    ({'kind': 'summary', 'name': 'm', 'labelnames': [], 'legacy': True},
+     [['call', None, None, 'observe', ['i', 2 ** 53 + 1]], ['call', None, None, 'observe', ['i', 1]],
+      ['call', None, None, 'observe', ['i', -(2 ** 60) + 3]]]),
     # keyword labels in permuted order, non-string values
     ({'kind': 'gauge', 'name': 'm', 'labelnames': ['a', 'b', 'c'], 'legacy': True},
      [['call', [['s', 'x'], ['i', 1], ['b', True]], [], 'inc', F(1.0)],
@@ -669,7 +706,6 @@ class Batch:
     def __init__(self, ctx):
         self.ctx = ctx
         self.cases = []
-        self.f7 = []
         self.nfail = {}
         self.ndiv = 0
 
@@ -693,10 +729,6 @@ class Batch:
                  {'spec': spec, 'ops': ops[:6], 'outcomes': outs[:6]} if label != 'exhaustive' else None)
         fails = oracle(spec, ops, real)
         for sig, what, step in fails:
-            if sig in (F7_RESET, F7_INFO):
-                if len(self.f7) < 4:
-                    self.f7.append((sig, what, {'spec': spec, 'ops': ops[:step]}))
-                continue
             ctx.count('oracle-fail:' + sig)
             self.nfail[sig] = self.nfail.get(sig, 0) + 1
             if self.nfail[sig] > 3:
@@ -772,8 +804,8 @@ def run(ctx):
     ctx.rule = ('one history = one metric (six types x 0-3 labels x legacy/UTF-8 label names x arbitrary sorted buckets incl. '
                 'negative/zero/duplicate bounds x enum states) in a fresh CollectorRegistry and a list of calls '
                 '(inc/dec/set/observe/reset/info/state addressed directly, positionally or by keyword, labels() alone, '
-                'remove, clear; amounts ordinary, >2^53, tiny, negative, +-Inf, NaN, ints, bools, on a bound and its '
-                'neighbours); exhaustive = every word of length 3 (quick) / 4 (thorough) over a 12-call alphabet per type on a '
+                'remove, clear; amounts ordinary, >2^53, tiny, negative, +-Inf, NaN, ints (also ints that are no doubles: 2^53+1, 10^17+1, …, '
+                'before and after reset()), bools, on a bound and its neighbours); exhaustive = every word of length 3 (quick) / 4 (thorough) over a 12-call alphabet per type on a '
                 'two-label metric and of length 3 over a 9-call alphabet on the unlabelled metric; random to length 200; '
                 'observed after EVERY step; a history is non-trivial when some step changed the exposed samples; distinct by '
                 '(metric, history)')
@@ -812,8 +844,6 @@ def run(ctx):
         if len(b.cases) >= 100:
             b.flush()
     b.flush()
-    for sig, what, case in b.f7:
-        ctx.fail(sig, what, case)
 
 
 def replay(ctx, case):
@@ -822,8 +852,6 @@ def replay(ctx, case):
     b = Batch(ctx)
     b.add(spec, ops, 'replay')
     b.flush()
-    for sig, what, cs in b.f7:
-        ctx.fail(sig, what, cs)
     real = run_real(spec, ops)
     print('REPLAY', json.dumps(spec, ensure_ascii=False), json.dumps(ops, ensure_ascii=False))
     if real[0] == 'ok':
